@@ -5,6 +5,8 @@
 //! length of the string IS the length of the vector, so trailing `-` are significant for `PartialEq`); a clause
 //! list is `c1/c2/…`, the empty list is `.`. Observed clause lists are printed with `fmt_partial` over the
 //! `num_vars` variables of the context (variables beyond are appended as `;idx=val`).
+//! `C10.ext` / `C10.opt` also report a `bits` field: the library's own verdicts (clauses are implicants / are
+//! implied, rebuild == operand), so that wide operands (50 … 2000 variables, no truth table) carry a predicate too.
 #[path = "../common.rs"]
 mod common;
 use biodivine_lib_bdd::*;
@@ -37,6 +39,129 @@ fn fmt_res_clauses(cs: &Option<Vec<BddPartialValuation>>, n: usize) -> String {
     match cs { Some(cs) => fmt_clauses(cs, n), None => s("panic") }
 }
 
+/// `1`/`0` per check, `p` if the check could not be computed (an earlier step or the check itself panicked)
+fn fmt_bits(bits: &[Option<bool>]) -> String {
+    bits.iter().map(|b| match b { Some(true) => '1', Some(false) => '0', None => 'p' }).collect()
+}
+/// every clause of the DNF is an implicant of `b`, decided by the library: `clause => b` is the tautology
+fn lib_implicants(ctx: &BddVariableSet, b: &Bdd, dnf: &Option<Vec<BddPartialValuation>>) -> Option<bool> {
+    match dnf { Some(cs) => catch(|| cs.iter().all(|c| ctx.mk_conjunctive_clause(c).imp(b).is_true())), None => None }
+}
+
+/// Oracle builder for wide diagrams (no truth table): the reduced ordered diagram of a DISJUNCTION OF CUBES,
+/// by Shannon expansion on the smallest mentioned variable, HIGH cofactor first, with a unique table — the same
+/// layout as `canon_triples`. A cube is a list of (variable, value) with strictly increasing variables.
+fn canon_of_cubes(n: usize, cubes: &[Vec<(usize, bool)>]) -> Vec<(usize, usize, usize)> {
+    use std::collections::HashMap;
+    type Cubes = Vec<Vec<(usize, bool)>>;
+    fn norm(mut c: Cubes) -> Cubes { c.sort(); c.dedup(); c }
+    fn go(cubes: Cubes, nodes: &mut Vec<(usize, usize, usize)>, idx: &mut HashMap<(usize, usize, usize), usize>, memo: &mut HashMap<Cubes, usize>) -> usize {
+        if cubes.is_empty() { return 0; }
+        if cubes.iter().any(|c| c.is_empty()) { return 1; }
+        if let Some(r) = memo.get(&cubes) { return *r; }
+        let k = cubes.iter().map(|c| c[0].0).min().unwrap();
+        let cof = |val: bool| -> Cubes {
+            norm(cubes.iter().filter_map(|c| if c[0].0 == k { if c[0].1 == val { Some(c[1..].to_vec()) } else { None } } else { Some(c.clone()) }).collect())
+        };
+        let hi = go(cof(true), nodes, idx, memo);
+        let lo = go(cof(false), nodes, idx, memo);
+        let r = if hi == lo { lo } else {
+            let key = (k, lo, hi);
+            if let Some(i) = idx.get(&key) { *i } else { nodes.push(key); idx.insert(key, nodes.len() - 1); nodes.len() - 1 }
+        };
+        memo.insert(cubes, r);
+        r
+    }
+    let mut nodes = vec![(n, 0, 0), (n, 1, 1)];
+    let (mut idx, mut memo) = (HashMap::new(), HashMap::new());
+    let r = go(norm(cubes.to_vec()), &mut nodes, &mut idx, &mut memo);
+    if r == 0 { nodes.truncate(1); }
+    nodes
+}
+/// complement of a canonical diagram: swap the terminals (the decision nodes and their order stay as they are)
+fn complement_triples(n: usize, nodes: &[(usize, usize, usize)]) -> Vec<(usize, usize, usize)> {
+    if nodes.len() == 1 { return vec![(n, 0, 0), (n, 1, 1)]; }
+    if nodes.len() == 2 { return vec![(n, 0, 0)]; }
+    let sw = |p: usize| if p == 0 { 1 } else if p == 1 { 0 } else { p };
+    nodes.iter().enumerate().map(|(i, (v, l, h))| if i < 2 { (*v, *l, *h) } else { (*v, sw(*l), sw(*h)) }).collect()
+}
+fn cube(lits: &[(usize, bool)]) -> Vec<(usize, bool)> { let mut c = lits.to_vec(); c.sort(); c.dedup_by_key(|l| l.0); c }
+
+/// One wide diagram: a small core (xor / majority / and-or / literal) on `k <= 3` variables OR-ed with one or two
+/// long cubes over (most of) the variables, core variables included; optionally complemented. The satisfying
+/// counts are `core * 2^(n-k) + 2^(free variables of the cube)`: they differ in their LOW bits only, far below
+/// what a 53-bit mantissa can tell apart once n > 53.
+fn wide_function(rng: &mut Rng64, n: usize, max_cube: usize) -> Vec<(usize, usize, usize)> {
+    // positions of the core variables: the low ones (natural) or anywhere (permuted)
+    let mut pos: Vec<usize> = if rng.bool() { vec![0, 1, 2] } else {
+        let mut p = vec![]; while p.len() < 3 { let x = rng.below(n as u64) as usize; if !p.contains(&x) { p.push(x); } } p
+    };
+    if rng.chance(1, 4) { pos.rotate_left(1); }
+    let (a, b, c) = (pos[0], pos[1], pos[2]);
+    let mut cubes: Vec<Vec<(usize, bool)>> = match rng.below(6) {
+        0 => vec![cube(&[(a, true), (b, false)]), cube(&[(a, false), (b, true)])],                                  // a xor b
+        1 => vec![cube(&[(a, true), (b, true)]), cube(&[(a, true), (c, true)]), cube(&[(b, true), (c, true)])],      // majority
+        2 => vec![cube(&[(a, true), (b, false), (c, false)]), cube(&[(a, false), (b, true), (c, false)]),
+                  cube(&[(a, false), (b, false), (c, true)]), cube(&[(a, true), (b, true), (c, true)])],            // a xor b xor c
+        3 => vec![cube(&[(a, true), (b, true)]), cube(&[(c, false)])],                                               // a & b | !c
+        4 => vec![cube(&[(a, rng.bool())])],                                                                         // literal
+        _ => vec![],                                                                                                 // no core: cubes only
+    };
+    // one long cube — density: all variables, nine in ten, half; polarity mostly positive — and sometimes a
+    // second, short one (two long cubes would make the number of paths, hence of clauses, quadratic)
+    {
+        let dens = *rng.pick(&[10u64, 10, 9, 5]);
+        let mut members: Vec<usize> = (0..n).filter(|_| rng.chance(dens, 10)).collect();
+        while members.len() > max_cube { let i = rng.below(members.len() as u64) as usize; members.remove(i); }
+        let lits: Vec<(usize, bool)> = members.into_iter().map(|x| (x, !rng.chance(1, 6))).collect();
+        cubes.push(cube(&lits));
+    }
+    if rng.chance(1, 3) {
+        let lits: Vec<(usize, bool)> = (0..(1 + rng.below(3))).map(|_| (rng.below(n as u64) as usize, rng.bool())).collect();
+        cubes.push(cube(&lits));
+    }
+    let nodes = canon_of_cubes(n, &cubes);
+    if rng.chance(1, 4) { complement_triples(n, &nodes) } else { nodes }
+}
+/// the family of the float-shortcut counterexample: (x1 ^ x2) | (x0 & !x1 & !x2 & x3 & … & x_{n-1})
+fn wide_xor_cube(n: usize) -> Vec<(usize, usize, usize)> {
+    let mut long = vec![(0, true), (1, false), (2, false)];
+    for i in 3..n { long.push((i, true)); }
+    canon_of_cubes(n, &[cube(&[(1, true), (2, false)]), cube(&[(1, false), (2, true)]), long])
+}
+fn run_wide(nodes: &[(usize, usize, usize)], out: &mut Out) {
+    let b = fmt_triples(nodes);
+    run("C10.ext", &[b.clone()], out);
+    run("C10.opt", &[b], out);
+}
+/// Wide stream, handed out a few cases at a time from inside the other generators so that the (slower) wide
+/// cases are spread over the whole case file and hence over all driver shards.
+struct Wide { queue: Vec<Vec<(usize, usize, usize)>> }
+impl Wide {
+    fn new(tier: Tier, rng: &mut Rng64) -> Wide {
+        let thorough = tier == Tier::Thorough;
+        let mut q = vec![];
+        for n in [53usize, 54, 55, 56, 57, 58, 60, 64, 70, 80, 90, 100, 120] { q.push(wide_xor_cube(n)); }
+        for _ in 0..(if thorough { 1500 } else { 170 }) {
+            let n = match rng.below(8) { 0 => 50 + rng.below(5), 1..=5 => 54 + rng.below(30), 6 => 84 + rng.below(20), _ => 104 + rng.below(27) } as usize;
+            q.push(wide_function(rng, n, n));
+        }
+        // very wide, few nodes, large level gaps; interleaved with the others (they are the slowest to replay)
+        let mut vw = vec![];
+        for _ in 0..(if thorough { 200 } else { 20 }) {
+            let n = match rng.below(4) { 0 | 1 => 200 + rng.below(400), 2 => 600 + rng.below(600), _ => 1200 + rng.below(801) } as usize;
+            let mc = 12 + rng.below(30) as usize;
+            vw.push(wide_function(rng, n, mc));
+        }
+        let step = (q.len() / (vw.len() + 1)).max(1);
+        for (i, w) in vw.into_iter().enumerate() { let at = ((i + 1) * step + i).min(q.len()); q.insert(at, w); }
+        q.reverse();
+        Wide { queue: q }
+    }
+    fn tick(&mut self, out: &mut Out) { if let Some(w) = self.queue.pop() { run_wide(&w, out); } }
+    fn drain(&mut self, out: &mut Out) { while let Some(w) = self.queue.pop() { run_wide(&w, out); } }
+}
+
 pub fn run(key: &str, a: &[String], out: &mut Out) {
     out.begin(key, a);
     match key {
@@ -57,7 +182,9 @@ pub fn run(key: &str, a: &[String], out: &mut Out) {
             out.case(key, a, &[fmt_res_bdd(&res)]);
         }
         "C10.ext" => {
-            // Bdd => to_dnf to_cnf mk_dnf(to_dnf) mk_cnf(to_cnf)
+            // Bdd => to_dnf to_cnf mk_dnf(to_dnf) mk_cnf(to_cnf) bits
+            // bits (computed with the library itself, usable without a truth table on wide diagrams):
+            //   every DNF clause implies b | b implies every CNF clause | mk_dnf(to_dnf b) == b | mk_cnf(to_cnf b) == b
             let b = Bdd::from_string(&a[0]);
             let n = b.num_vars();
             let ctx = BddVariableSet::new_anonymous(n);
@@ -65,16 +192,24 @@ pub fn run(key: &str, a: &[String], out: &mut Out) {
             let cnf = catch(|| b.to_cnf());
             let rd = match &dnf { Some(d) => catch(|| ctx.mk_dnf(d)), None => None };
             let rc = match &cnf { Some(c) => catch(|| ctx.mk_cnf(c)), None => None };
-            out.case(key, a, &[fmt_res_clauses(&dnf, n as usize), fmt_res_clauses(&cnf, n as usize), fmt_res_bdd(&rd), fmt_res_bdd(&rc)]);
+            let bits = [
+                lib_implicants(&ctx, &b, &dnf),
+                match &cnf { Some(cs) => catch(|| cs.iter().all(|c| b.imp(&ctx.mk_disjunctive_clause(c)).is_true())), None => None },
+                rd.as_ref().map(|r| *r == b),
+                rc.as_ref().map(|r| *r == b),
+            ];
+            out.case(key, a, &[fmt_res_clauses(&dnf, n as usize), fmt_res_clauses(&cnf, n as usize), fmt_res_bdd(&rd), fmt_res_bdd(&rc), fmt_bits(&bits)]);
         }
         "C10.opt" => {
-            // Bdd => to_optimized_dnf mk_dnf(to_optimized_dnf)
+            // Bdd => to_optimized_dnf mk_dnf(to_optimized_dnf) bits
+            // bits: every clause implies b | mk_dnf(to_optimized_dnf b) == b
             let b = Bdd::from_string(&a[0]);
             let n = b.num_vars();
             let ctx = BddVariableSet::new_anonymous(n);
             let dnf = catch(|| b.to_optimized_dnf());
             let rd = match &dnf { Some(d) => catch(|| ctx.mk_dnf(d)), None => None };
-            out.case(key, a, &[fmt_res_clauses(&dnf, n as usize), fmt_res_bdd(&rd)]);
+            let bits = [lib_implicants(&ctx, &b, &dnf), rd.as_ref().map(|r| *r == b)];
+            out.case(key, a, &[fmt_res_clauses(&dnf, n as usize), fmt_res_bdd(&rd), fmt_bits(&bits)]);
         }
         _ => panic!("unknown key {}", key),
     }
@@ -107,10 +242,14 @@ fn both(n: usize, list: &str, out: &mut Out) {
 
 pub fn gen(tier: Tier, rng: &mut Rng64, out: &mut Out) {
     let thorough = tier == Tier::Thorough;
+    // the wide stream has its own generator state, so that adding to it does not move the other streams
+    let mut wrng = Rng64(rng.next() ^ 0xC10);
+    let mut wide = Wide::new(tier, &mut wrng);
 
     // --- single-clause constructors: all 3^n clauses, n <= 4, plus other vector lengths
     for n in 0..=4usize {
         for i in 0..pow3(n) {
+            if i % 3 == 0 { wide.tick(out); }
             let c = clause_of_index(n, i);
             for key in ["C10.conj", "C10.disj"] {
                 run(key, &[n.to_string(), c.clone()], out);
@@ -138,11 +277,12 @@ pub fn gen(tier: Tier, rng: &mut Rng64, out: &mut Out) {
         let m = pow3(n);
         let all: Vec<String> = (0..m).map(|i| clause_of_index(n, i)).collect();
         for a in &all { both(n, a, out); }
-        for a in &all { for b in &all { both(n, &format!("{}/{}", a, b), out); } }
+        for a in &all { wide.tick(out); for b in &all { both(n, &format!("{}/{}", a, b), out); } }
         if n < 3 || thorough {
             for a in &all { for b in &all { for c in &all { both(n, &format!("{}/{}/{}", a, b, c), out); } } }
         } else {
-            for _ in 0..2500 {
+            for i in 0..2500 {
+                if i % 40 == 0 { wide.tick(out); }
                 let (a, b, c) = (rng.pick(&all).clone(), rng.pick(&all).clone(), rng.pick(&all).clone());
                 both(n, &format!("{}/{}/{}", a, b, c), out);
             }
@@ -160,7 +300,8 @@ pub fn gen(tier: Tier, rng: &mut Rng64, out: &mut Out) {
     }
     // --- random lists of up to 12 clauses over <= 8 variables: duplicates, complements, overlaps
     let rounds = if thorough { 40000 } else { 2500 };
-    for _ in 0..rounds {
+    for i in 0..rounds {
+        if i % (if thorough { 25 } else { 30 }) == 0 { wide.tick(out); }
         let n = 1 + rng.below(8) as usize;
         let len = rng.below(13) as usize;
         let dens = 1 + rng.below(8);
@@ -230,12 +371,14 @@ pub fn gen(tier: Tier, rng: &mut Rng64, out: &mut Out) {
     }
     if thorough {
         for t in 0..65536u64 {
+            if t % 200 == 0 { wide.tick(out); }
             let b = fmt_bdd(&bdd_of_tt(4, &tt_from_index(4, t)));
             run("C10.ext", &[b.clone()], out);
             run("C10.opt", &[b], out);
         }
     } else {
-        for _ in 0..1500 {
+        for i in 0..1500 {
+            if i % 25 == 0 { wide.tick(out); }
             let b = fmt_bdd(&bdd_of_tt(4, &tt_from_index(4, rng.below(65536))));
             run("C10.ext", &[b.clone()], out);
             if rng.chance(1, 2) { run("C10.opt", &[b], out); }
@@ -243,7 +386,8 @@ pub fn gen(tier: Tier, rng: &mut Rng64, out: &mut Out) {
     }
     // random functions over 5..7 variables
     let rounds = if thorough { 20000 } else { 1200 };
-    for _ in 0..rounds {
+    for i in 0..rounds {
+        if i % (if thorough { 100 } else { 40 }) == 0 { wide.tick(out); }
         let n = 5 + rng.below(3) as usize;
         let b = random_bdd(rng, n);
         let bs = fmt_bdd(&b);
@@ -269,6 +413,7 @@ pub fn gen(tier: Tier, rng: &mut Rng64, out: &mut Out) {
         run("C10.ext", &[b.clone()], out);
         run("C10.opt", &[b], out);
     }
+    wide.drain(out);
 }
 
 fn main() { harness_main(gen, run) }
